@@ -378,3 +378,69 @@ pub fn print_radix(radix: u32, bits: u32, neg: bool, upper: bool) {
         i += 1;
     }
 }
+
+// ------------------------------------------------------------------ formatter flags vs Rust's primitive formatting
+
+fn sink_eq(a: &Sink, b: &Sink) -> bool {
+    if a.n != b.n {
+        return false;
+    }
+    let mut i = 0;
+    while i < a.n && i < 136 {
+        if a.buf[i] != b.buf[i] {
+            return false;
+        }
+        i += 1;
+    }
+    true
+}
+
+macro_rules! flag_case {
+    ($spec:literal, $x:expr, $p:expr) => {{
+        let mut s1 = Sink { buf: [0; 136], n: 0 };
+        let mut s2 = Sink { buf: [0; 136], n: 0 };
+        write!(s1, $spec, $x).unwrap();
+        write!(s2, $spec, $p).unwrap();
+        assert!(sink_eq(&s1, &s2), "layout differs from the primitive's formatting");
+    }};
+}
+
+/// UBig formatted with width / fill / alignment / + / # / 0 flags equals the same u32 formatted by Rust
+pub fn fmt_flags_u(which: u8) {
+    let v: u32 = nd::any();
+    let x = if v == 0 { ubig(&[]) } else { ubig(&[v as Word]) };
+    match which {
+        0 => flag_case!("{:12}", x, v),
+        1 => flag_case!("{:<12}", x, v),
+        2 => flag_case!("{:^13}", x, v),
+        3 => flag_case!("{:*>+12}", x, v),
+        4 => flag_case!("{:012}", x, v),
+        5 => flag_case!("{:+012}", x, v),
+        6 => flag_case!("{:#x}", x, v),
+        7 => flag_case!("{:#012x}", x, v),
+        8 => flag_case!("{:>#12X}", x, v),
+        9 => flag_case!("{:#b}", x, v),
+        10 => flag_case!("{:^#14o}", x, v),
+        11 => flag_case!("{:3}", x, v),
+        12 => flag_case!("{:+}", x, v),
+        _ => flag_case!("{:#040b}", x, v),
+    }
+}
+
+/// IBig in decimal equals i32 formatting for every flag combination listed
+pub fn fmt_flags_i(which: u8) {
+    let v: i32 = nd::any();
+    nd::assume(v != i32::MIN);
+    let m = v.unsigned_abs();
+    let x = if v == 0 { ibig(POS, &[]) } else { ibig(if v < 0 { NEG } else { POS }, &[m as Word]) };
+    match which {
+        0 => flag_case!("{:12}", x, v),
+        1 => flag_case!("{:<12}", x, v),
+        2 => flag_case!("{:^13}", x, v),
+        3 => flag_case!("{:*>+12}", x, v),
+        4 => flag_case!("{:012}", x, v),
+        5 => flag_case!("{:+012}", x, v),
+        6 => flag_case!("{:+}", x, v),
+        _ => flag_case!("{:3}", x, v),
+    }
+}
